@@ -31,9 +31,9 @@ ASSUMPTIONS = [
     'where the documentation fixes no order between two different lambdas '
     'applied to the same element (toDict/groupBy key vs value selector) '
     'only per-lambda order and counts are compared',
-    'ordering key selectors are evaluated per comparison (known finding): '
-    'for orderBy/thenBy only "elements of the collection, each at least '
-    'once when n >= 2, nothing else" is required',
+    'ordering key selectors: the primary one is applied to every element '
+    'exactly once when n >= 2 (a single element needs no key), secondary '
+    'ones at most once per element (only ties need them), in any order',
 ]
 
 
@@ -520,10 +520,10 @@ def check_elements(run, case):
             ok = have == full[:len(have)] and need <= len(have) <= need + 1
         else:
             ok = have == want
-        if ok and isinstance(want, tuple) and want[0] == 'set' and \
-                len(have) != len(want[1]):
-            # the strict reading of the property; recorded as a known
-            # finding (the comparator re-evaluates the key selector)
+        if ok and isinstance(want, tuple) and want[0] in ('set', 'subset') \
+                and len(have) != len(set(have)):
+            # a key selector is applied to an element at most once (a
+            # defect fixed in 06cec4f: the comparator re-evaluated it)
             run.violate('ordering-key-selector-evaluated-per-comparison',
                         case, '%s with c=%r: key selector applied %d times '
                         'for %d elements (log %r)' % (
